@@ -143,6 +143,17 @@ def run(ctx):
             rc, o, e = c02.run_linker(lk, d, line, True, out)
             vs[lk] = ("N=" + ",".join(str(x) for x in needed_of(files, out))) if rc == 0 else "err"
         if vs["ld"] == vs["lld"] and vs["ld"] != "err" and vs["ld"] != impl[i]:
+            # ld and lld let a shared object's definition satisfy a reference instead of extracting an archive member that defines
+            # the name earlier on the command line; wild extracts the member (first definition wins). Which regular files take part
+            # is C03's subject: DT_NEEDED is only compared when all three load the same objects and archive members.
+            try:
+                wb = c02.mask_so(files, lm.observe(os.path.join(d, "out.wild"), files)[0])
+                lb = c02.mask_so(files, lm.observe(os.path.join(d, "out.ld"), files)[0])
+            except Exception:
+                wb = lb = None
+            if wb is not None and wb != lb:
+                ctx.count("oracle", "skipped-load-set-differs")
+                continue
             ctx.cov["impl_oracle_failures"] += 1
             mine = [x for x in impl[i][2:].split(",") if x]
             theirs = [x for x in vs["ld"][2:].split(",") if x]
